@@ -644,22 +644,23 @@ def run_execs(ctx, shard, store, part, execs, t_end=None, on_each=None):
 
 
 def confirm(ctx, shard, unit, idx, vio):
-    """Replay-before-report: alone on a fresh instance (twice); failing that, with the unit's prefix."""
+    """Replay-before-report: alone on a fresh instance (must fail twice); failing that, with the unit's exact
+    predecessor list.  Returns the replay descriptor, or None if the violation could not be reproduced (the
+    stall schedules depend on how many bytes the kernel moved per step, which an overloaded machine can perturb:
+    such an observation is never reported as a violation)."""
     store, part = unit['store'], unit['part']
     x = unit['execs'][idx]
     alone = 0
-    for _ in range(2):
+    for _ in range(3):
         r, _, _ = run_execs(ctx, shard, store, part, [x])
         if r and r[0][1]:
             alone += 1
-    if alone == 2:
-        return {'store': store, 'part': part, 'execs': [x]}
+            if alone == 2:
+                return {'store': store, 'part': part, 'execs': [x]}
     r, _, _ = run_execs(ctx, shard, store, part, unit['execs'][:idx + 1])
     if len(r) == idx + 1 and r[idx][1]:
         return {'store': store, 'part': part, 'execs': unit['execs'][:idx + 1]}
-    if store in ASYNC_STORES:
-        return None
-    raise HarnessError('violation not reproducible (store %s, %s, %r): %s' % (store, part, x, vio[:400]))
+    return None
 
 
 def key_of(store, part, x, sig):
@@ -805,9 +806,12 @@ def run(ctx):
         ev_hit = outcomes.get('evict:hit:v', 0)
         if ev_miss < 50 or ev_hit < 50:
             raise HarnessError('vacuity guard: eviction part saw %d hits / %d misses' % (ev_hit, ev_miss))
+    unrep_det = [u for u in unrep if not u.startswith(ASYNC_STORES)]
+    if unrep_det and not vios:
+        raise HarnessError('%d violation(s) seen once but not reproducible on replay (nondeterminism), e.g. %s' % (len(unrep_det), unrep_det[0][:600]))
     vio = [Violation(k, what, rep) for k, what, rep in vios]
     obs = ['squid problem during %s: %s' % (k, what[:400]) for k, what, rep in crashes]
-    obs += ['unreproducible (async store): ' + u for u in unrep]
+    obs += ['seen once, not reproducible on replay: ' + u for u in unrep]
     # a crash while serving a hit is not "serving a wrong hit"; C10 reports it as an observation
     bound = {'history_length': 5 if ctx.quick else 6, 'eviction_history_length': 4 if ctx.quick else 5,
              'reader_writer_interleavings': 'all 21 orders of 2 reader x 5 writer steps' + ('' if ctx.quick else ' and all 56 of 3 x 5'),
